@@ -79,10 +79,32 @@ def history(rng, tier):
     lines.append('da_rd %s %s %s %d' % (dt if not calibrated else 'Double', A.idx(shape), A.idx([0] * rank), A.prod(shape)))
     return lines
 
+def sparse_history(rng, tier):
+    """a compressed 1-d numeric array grown far beyond what was written (several storage chunks that no write ever touches):
+    the never-written elements must read as zero, in the session and after reopening"""
+    dt = rng.choice(['Int32', 'Double', 'Int64', 'Float', 'UInt8', 'Int16'])
+    n0 = rng.randint(2, 12)
+    big = rng.choice([6000, 9000, 20000])
+    lines = ['da_new %s %s %s %s' % (dt, A.idx([n0]), rng.choice(['deflate', 'deflate', 'none', 'auto']), rng.choice(['auto', 'deflate']))]
+    vals = [A.small_value(dt, rng) for _ in range(n0)]
+    lines.append('da_wr %s %s %s %s' % (dt, A.idx([n0]), A.idx([0]), lst(vals)))
+    lines.append('da_ext %s' % A.idx([big]))
+    for _ in range(rng.randint(2, 4)):
+        off = rng.choice([n0, big // 2, big - 16, rng.randint(n0, big - 16)])
+        cnt = rng.randint(1, 12)
+        lines.append('da_rd %s %s %s %d' % (dt, A.idx([cnt]), A.idx([off]), cnt))
+    if rng.random() < 0.6:
+        lines.append('da_reopen %s' % rng.choice(['ro', 'rw']))
+        lines.append('da_rd %s %s %s %d' % (dt, A.idx([8]), A.idx([big - 100]), 8))
+    lines.append('da_rd %s %s %s %d' % (dt, A.idx([n0]), A.idx([0]), n0))
+    return lines
+
 def cases(tier, seed, rng):
     from vlib.runner import Case
     n = 150 if tier == 'quick' else 3000
-    return [Case(history(rng, tier), 'gen:array') for _ in range(n)]
+    out = [Case(history(rng, tier), 'gen:array') for _ in range(n)]
+    out += [Case(sparse_history(rng, tier), 'gen:sparse-growth') for _ in range(6 if tier == 'quick' else 100)]
+    return out
 
 def nontrivial(case, tags):
     return any(t.startswith('da_wr.ok') or t.startswith('da_app.ok') for t in tags) and any(t.startswith('da_rd.raw') or t.startswith('da_rd.cal') for t in tags)
